@@ -1301,20 +1301,23 @@ impl ApiEndpointVersions {
                 ApiEndpointVersions::From(earliest),
             ) => u.matches(Some(&earliest)),
 
+            // The two ranges share a version exactly when the later of the
+            // two starting points is part of the bounded range (this covers
+            // the one-version range whose `earliest` equals its `until`).
             (
                 ApiEndpointVersions::From(earliest),
-                ApiEndpointVersions::FromUntil(OrderedVersionPair {
-                    earliest: _,
-                    until,
+                r @ ApiEndpointVersions::FromUntil(OrderedVersionPair {
+                    earliest: range_earliest,
+                    until: _,
                 }),
-            ) => earliest < until,
+            ) => r.matches(Some(std::cmp::max(earliest, range_earliest))),
             (
-                ApiEndpointVersions::FromUntil(OrderedVersionPair {
-                    earliest: _,
-                    until,
+                r @ ApiEndpointVersions::FromUntil(OrderedVersionPair {
+                    earliest: range_earliest,
+                    until: _,
                 }),
                 ApiEndpointVersions::From(earliest),
-            ) => earliest < until,
+            ) => r.matches(Some(std::cmp::max(earliest, range_earliest))),
 
             (
                 u @ ApiEndpointVersions::Until(_),
